@@ -241,6 +241,7 @@ fn twin_history(cfg: &Cfg, h: u64) -> (&'static str, String, Vec<String>, Vec<St
     let coll = TWIN_COLLS[(h % 7) as usize];
     let mut rng = Rng::new(cfg.seed).derive(0x7717).derive(h);
     let variant = (h / 7) % 6; // 0: empty prefix, 1: prefix forces arena growth, else random
+    let small = cfg.flag("small"); // Miri: short prefixes (the arena still grows: 8 slots at hint 0)
     let hint_b = *rng.pick(&[0usize, 1, 8, 9, 300]);
     match coll {
         "KeyExpTree" | "KeyExpList" => {
@@ -257,18 +258,22 @@ fn twin_history(cfg: &Cfg, h: u64) -> (&'static str, String, Vec<String>, Vec<St
                 p.r = 300;
                 p.w = [80, 2, 5, 5, 5, 1, 0];
             }
+            if small {
+                p.len = p.len.min(24);
+                p.u = p.u.min(14);
+            }
             let (hint, pre) = key::gen_history(&p, &mut rng);
             let mut q = profs[(h / 7 % 8) as usize].clone();
-            q.len = q.len.min(70);
+            q.len = q.len.min(if small { 20 } else { 70 });
             q.export_end = h % 2 == 0;
             let (_, suf) = key::gen_history(&q, &mut rng);
             (coll, format!("hint={} twin_hint={}", hint, hint_b), pre.iter().map(|o| o.line()).collect(), suf.iter().map(|o| o.line()).collect())
         }
         "SegExpTree" => {
-            let ((lo, hi), pre) = seg_suites::gen_history(&mut rng, h / 7, if variant == 0 { 0 } else { 60 });
+            let ((lo, hi), pre) = seg_suites::gen_history(&mut rng, h / 7, if variant == 0 { 0 } else if small { 16 } else { 60 });
             // same domain for the suffix: regenerate with the same domain selector
             let mut r2 = rng.derive(9);
-            let (_, mut suf) = seg_suites::gen_history(&mut r2, 0, 40);
+            let (_, mut suf) = seg_suites::gen_history(&mut r2, 0, if small { 14 } else { 40 });
             // coordinates of the suffix were drawn for [0,31]; map them into the domain
             for op in suf.iter_mut() {
                 let m = |x: i64| -> i64 { (lo as i128 + ((x as i128) * (hi as i128 - lo as i128) / 31)) as i64 };
@@ -295,11 +300,18 @@ fn twin_history(cfg: &Cfg, h: u64) -> (&'static str, String, Vec<String>, Vec<St
                 p.u = 400;
                 p.w = [80, 4, 2, 2, 2, 2, 1, 1, 0, 0, 1, 1, 0, 0, 0, 0, 0];
             }
+            if small {
+                p.len = p.len.min(24);
+                p.u = p.u.min(14);
+            }
             let is_set = coll.starts_with("Set");
             let (hint, _, pre) = ord::gen_history(&p, is_set, &mut rng);
             let pre = if variant == 0 { vec![] } else { pre };
             let mut q = profs[(h / 7 % 8) as usize].clone();
-            q.len = q.len.min(90);
+            q.len = q.len.min(if small { 20 } else { 90 });
+            if small {
+                q.u = q.u.min(14);
+            }
             let (_, uni, suf) = ord::gen_history(&q, is_set, &mut rng);
             let uni = (uni.0.min(0), uni.1.max(2 * p.u));
             (coll, format!("hint={} uni={}..{} twin_hint={}", hint, uni.0, uni.1, hint_b), pre.iter().map(|o| o.line()).collect(), suf.iter().map(|o| o.line()).collect())
